@@ -309,6 +309,9 @@ func main() {
 		tr := p[2].CPUms / maxf(p[0].CPUms, 0.001)
 		ar := float64(p[2].AllocB) / maxf(float64(p[0].AllocB), 1)
 		table = append(table, fmt.Sprintf("%s/%s: n=%d %.1fms -> 4n %.1fms (x%.1f), alloc x%.1f", j.fam, j.op, p[0].N, p[0].CPUms, p[2].CPUms, tr, ar))
+		if len(table)%17 == 3 {
+			run.Sample(map[string]any{"family": j.fam, "operation": j.op, "points": p, "time_growth": tr, "allocation_growth": ar})
+		}
 		if p[0].CPUms >= 15 {
 			run.Nontrivial(j.fam + "/" + j.op)
 			if tr > 11 && p[1].CPUms/p[0].CPUms > 2.8 && p[2].CPUms/p[1].CPUms > 2.8 {
